@@ -38,9 +38,12 @@ pub struct OpFaultSpec {
 #[derive(Clone, Debug, Serialize, Deserialize, PartialEq)]
 pub struct IoFaultSpec {
     pub step: usize,
-    /// k-th faultable call of class `class` within the statement.
+    /// n-th call of class `class` on `path` within the statement.
     pub nth: u64,
     pub class: Class,
+    /// Path relative to the database directory.
+    #[serde(default)]
+    pub path: String,
     pub kind: crate::interpose::FaultKind,
 }
 
